@@ -28,6 +28,19 @@ impl Prob {
         self.flow.as_ref().map(|fl| fl(x0, y0, t))
     }
     /// writes the analytic Jacobian into a (Full or Banded, in-band only) matrix
+    /// the way a user with a sparse Jacobian writes it: only the entries that are not zero (the matrix arrives
+    /// zero-initialised and nothing else writes into it)
+    pub fn write_jac_nonzeros(&self, t: f64, y: &[f64], j: &mut Matrix) {
+        let d = (self.jac.as_ref().expect("no analytic jacobian"))(t, y);
+        let n = self.n;
+        for r in 0..n {
+            for c in 0..n {
+                if d[r * n + c] != 0.0 {
+                    j[(r, c)] = d[r * n + c];
+                }
+            }
+        }
+    }
     pub fn write_jac(&self, t: f64, y: &[f64], j: &mut Matrix) {
         let d = (self.jac.as_ref().expect("no analytic jacobian"))(t, y);
         let n = self.n;
